@@ -16,11 +16,12 @@ import (
 
 // AKECase: a start pattern and one interleaving of the two FIFO queues.
 type AKECase struct {
-	VA      int   `json:"va"`      // versions allowed by A: 2, 3 or 23
-	VB      int   `json:"vb"`      // versions allowed by B
-	Trigger int   `json:"trigger"` // 0 query, 1 whitespace tag, 2 error message, 3 send under require-encryption, 4 refresh while encrypted
-	Who     int   `json:"who"`     // 0 A starts, 1 B starts, 2 both
-	Choices []int `json:"choices"` // which queue delivers next whenever both are non-empty (missing: 0)
+	VA      int   `json:"va"`            // versions allowed by A: 2, 3 or 23
+	VB      int   `json:"vb"`            // versions allowed by B
+	Trigger int   `json:"trigger"`       // 0 query, 1 whitespace tag, 2 error message, 3 send under require-encryption, 4 refresh while encrypted (= query with Pre 1)
+	Pre     int   `json:"pre,omitempty"` // 0 fresh, 1 both encrypted (clocks aged), 2 B lost its session (restarted), 3 A called End() just now, 4 B called End() just now
+	Who     int   `json:"who"`           // 0 A starts, 1 B starts, 2 both
+	Choices []int `json:"choices"`       // which queue delivers next whenever both are non-empty (missing: 0)
 	Seed    int   `json:"seed,omitempty"`
 }
 
@@ -49,14 +50,33 @@ func runAKE(c *AKECase) (*sim.Outcome, []int, []int) {
 	cfg := SessCfg{SeedA: 1500 + 2*uint64(c.Seed), SeedB: 1601 + 2*uint64(c.Seed), KeyA: 0, KeyB: 3}
 	s := newSess(&SessScript{Cfg: cfg, PolA: verPol(c.VA) | extra, PolB: verPol(c.VB) | extra}, o)
 	w := s.W
+	pre := c.Pre % 5
 	if c.Trigger%5 == 4 {
+		pre = 1
+	}
+	if pre != 0 {
 		if !s.Handshake(0) {
 			o.Discard = true
 			return o, nil, nil
 		}
 		s.Exec(SOp{K: "pp", W: 0, I: 0, L: 3})
-		w.AgeClock(0, 3*time.Minute)
-		w.AgeClock(1, 3*time.Minute)
+		switch pre {
+		case 1:
+			w.AgeClock(0, 3*time.Minute)
+			w.AgeClock(1, 3*time.Minute)
+		case 2:
+			tag := w.P[1].C.GetOurInstanceTag()
+			w.P[1] = sim.NewParty(sim.PartyOpts{Name: "B", Seed: cfg.SeedB + 5000, Pol: verPol(c.VB) | extra, KeyI: cfg.KeyB})
+			// a restarted client keeps its instance tag (clients persist it per account, as libotr does)
+			w.P[1].C.InitializeInstanceTag(tag)
+			s.nDraw[1] = 0
+			w.AgeClock(0, 3*time.Minute)
+		case 3, 4:
+			// one side ends the session; the other learns of it; the next start follows at once (no time passes)
+			w.End(pre - 3)
+			s.Exec(SOp{K: "flush"})
+		}
+		w.Q[0], w.Q[1] = nil, nil
 	}
 	first := [2][]byte{}
 	starters := []int{c.Who}
@@ -65,16 +85,28 @@ func runAKE(c *AKECase) (*sim.Outcome, []int, []int) {
 	}
 	queued := map[int]string{}
 	for _, p := range starters {
+		if w.P[p].C.IsEncrypted() && (c.Trigger%5 == 1 || c.Trigger%5 == 3) {
+			// these triggers are Send calls: from an encrypted conversation they produce data messages, not a start
+			o.Discard = true
+			return o, nil, nil
+		}
 		switch c.Trigger % 5 {
 		case 0, 4:
 			w.Query(p)
 		case 1:
-			w.Send(p, []byte("hello there"))
+			if cs := w.Send(p, []byte("hello there")); cs.Err != nil {
+				// a finished conversation refuses to send until End() is called: no start happened
+				o.Discard = true
+				return o, nil, nil
+			}
 		case 2:
 			w.Receive(p, []byte("?OTR Error: you sent something unreadable"))
 		case 3:
 			t := s.Text(p, 5, 0)
-			w.Send(p, t)
+			if cs := w.Send(p, t); cs.Err != nil {
+				o.Discard = true
+				return o, nil, nil
+			}
 			queued[p] = string(t)
 		}
 		if len(w.Q[p]) > 0 {
@@ -131,7 +163,7 @@ func runAKE(c *AKECase) (*sim.Outcome, []int, []int) {
 		}
 		return o.Fail(sig, f, args...)
 	}
-	desc := fmt.Sprintf("trigger %d started by %d, versions %d/%d, schedule %v", c.Trigger%5, c.Who, c.VA, c.VB, taken)
+	desc := fmt.Sprintf("trigger %d started by %d in pre-state %d, versions %d/%d, schedule %v", c.Trigger%5, c.Who, pre, c.VA, c.VB, taken)
 	if !a.IsEncrypted() || !b.IsEncrypted() {
 		return fail("C07/no-completion", "the network is quiet but A encrypted=%v, B encrypted=%v (%s; crossing D-H Commits: %v)", a.IsEncrypted(), b.IsEncrypted(), desc, collision), taken, open
 	}
@@ -170,7 +202,7 @@ func runAKE(c *AKECase) (*sim.Outcome, []int, []int) {
 	if collision {
 		o.Class("crossing-commits-completed")
 	}
-	o.Class(fmt.Sprintf("trigger%d-who%d", c.Trigger%5, c.Who))
+	o.Class(fmt.Sprintf("trigger%d-who%d-pre%d", c.Trigger%5, c.Who, pre))
 	// both directions had messages in flight at the same moment: some choice was actually made
 	o.NonTrivial = len(taken) > 0
 	return o, taken, open
@@ -197,32 +229,34 @@ func TestProp_C07_Schedules(t *testing.T) {
 	}
 	exhaustive := true
 	for _, vp := range pairs {
-		for trig := 0; trig < 5; trig++ {
+		for trig := 0; trig < 4; trig++ {
 			for who := 0; who < 3; who++ {
-				idx++
-				if idx%sn != si {
-					continue
-				}
-				stack := [][]int{nil}
-				n := 0
-				for len(stack) > 0 {
-					if n >= budget {
-						exhaustive = false
-						break
+				for pre := 0; pre < 5; pre++ {
+					idx++
+					if idx%sn != si {
+						continue
 					}
-					prefix := stack[len(stack)-1]
-					stack = stack[:len(stack)-1]
-					c := &AKECase{VA: vp[0], VB: vp[1], Trigger: trig, Who: who, Choices: prefix}
-					_, taken, open := runAKE(c)
-					c.Choices = taken
-					sim.Judge(t, "C07schedules", c)
-					n++
-					for _, pos := range open {
-						alt := append(append([]int{}, taken[:pos]...), 1)
-						stack = append(stack, alt)
+					stack := [][]int{nil}
+					n := 0
+					for len(stack) > 0 {
+						if n >= budget {
+							exhaustive = false
+							break
+						}
+						prefix := stack[len(stack)-1]
+						stack = stack[:len(stack)-1]
+						c := &AKECase{VA: vp[0], VB: vp[1], Trigger: trig, Who: who, Pre: pre, Choices: prefix}
+						_, taken, open := runAKE(c)
+						c.Choices = taken
+						sim.Judge(t, "C07schedules", c)
+						n++
+						for _, pos := range open {
+							alt := append(append([]int{}, taken[:pos]...), 1)
+							stack = append(stack, alt)
+						}
 					}
+					sim.Count("C07schedules", fmt.Sprintf("schedules-trigger%d-who%d-pre%d", trig, who, pre), n)
 				}
-				sim.Count("C07schedules", fmt.Sprintf("schedules-trigger%d-who%d", trig, who), n)
 			}
 		}
 	}
@@ -233,7 +267,7 @@ func TestProp_C07_Random(t *testing.T) {
 	defer sim.MarkCompleted("C07random", false)
 	rapid.Check(t, func(rt *rapid.T) {
 		vp := rapid.SampledFrom(verPairs).Draw(rt, "versions")
-		c := &AKECase{VA: vp[0], VB: vp[1], Trigger: rapid.IntRange(0, 4).Draw(rt, "trigger"), Who: rapid.IntRange(0, 2).Draw(rt, "who"),
+		c := &AKECase{VA: vp[0], VB: vp[1], Trigger: rapid.IntRange(0, 3).Draw(rt, "trigger"), Who: rapid.IntRange(0, 2).Draw(rt, "who"), Pre: rapid.IntRange(0, 4).Draw(rt, "pre"),
 			Choices: rapid.SliceOfN(rapid.IntRange(0, 1), 0, 16).Draw(rt, "choices"), Seed: rapid.IntRange(0, 50).Draw(rt, "seed")}
 		sim.Judge(rt, "C07random", c)
 	})
